@@ -71,6 +71,7 @@ def check(rep, an, tier):
                                              ("prediction", S("N", rel_axis(cfg["K"])), urel, "TOTAL" if cfg["baseline"] else None)])
             F.pred_from_X(rep, res, entry)
             F.hygiene(rep, res, entry)
+            R.rule_rowsep(rep, res, entry)
             if cfg["bs"] == "sym":
                 R.rule_stack(rep, res, entry)
             objective_structure(rep, res, entry, model, cfg)
